@@ -130,6 +130,17 @@ def run(run):
     from gen import static_units
     static_units.report(run, 'C18.e', static_units.capacity_unit('C18.e'))
     run.floor('C18.e', 1)
+    # the task pool hands out and takes back slot indices; that they stay inside the array rests on its vacant-list discipline, which is
+    # decided per operation on effect summaries (C10.a/c) -- an obligation of C18 too (a slip there ends in an out-of-bounds store)
+    from rules import c10 as _c10
+    from lint import effects as _eff
+    for v_ in facts.variants(run.tier):
+        F_ = facts.load('w_core', 'P', v_)
+        _c10.task_list_summaries(run, F_, _eff.Effects(F_))
+        facts.drop(F_)
+    run.relabel('C10.a', 'C18.f')
+    run.relabel('C10.c', 'C18.f')
+    run.floor('C18.f', 4)
     run.explanation = (
         'Allocation-freedom from the AST (every new-expression is the reserved placement form into storage/_items, no delete, '
         'externals limited to memset / placement operator new / type_index) cross-checked on the undefined symbols of the '
